@@ -385,6 +385,19 @@ def case_argv(case, root_name):
     return a
 
 
+ROOT_SPELLINGS = ["plain", "plain", "plain", "dot", "slash", "abs", "abs-slash", "abs-slashdot", "dotdot", "slashdot"]
+
+
+def spelled(root_name, spelling, top):
+    """the same root, written differently on the command line: imdl cleans the path lexically, so none of these may change
+    the listing - in particular a symlinked root stays refused whether or not the path ends in a separator (added after
+    seeded change C06-9: absolute inputs skipping the normalisation)"""
+    return {"plain": root_name, "dot": "./" + root_name, "slash": root_name + "/", "slashdot": root_name + "/.",
+            "abs": os.path.join(top, root_name), "abs-slash": os.path.join(top, root_name) + "/",
+            "abs-slashdot": os.path.join(top, root_name) + "/.",
+            "dotdot": "../" + os.path.basename(top) + "/" + root_name}[spelling]
+
+
 def impl_canon(rc, out):
     if rc != 0:
         # 1 = imdl's own error exit, 2 = clap usage error; a panic (101) or a signal is not a refusal
@@ -425,7 +438,7 @@ def run_impl(ctx, case, builds=2):
         top = tempfile.mkdtemp(prefix="c06-", dir=case.get("tmp"))
         try:
             cmds = materialise(case["tree"], top, case["root_name"], random.Random(case["order_seed"] * 7 + b))
-            argv = case_argv(case, case["root_name"])
+            argv = case_argv(case, spelled(case["root_name"], case.get("root_spelling", "plain"), top))
             rc, out, err = ctx.imdl(argv, cwd=top, timeout=6 if has_special(case["tree"]) else 120)
             outs.append(impl_canon(rc, out))
             if b == 0:
@@ -445,6 +458,7 @@ def gen_case(r, tree=None):
     return {"tree": t, "flags": flags, "globs": globs, "specs": specs,
             "spec_text": [r.choice(SPEC_TEXT[s]) for s in specs],
             "root_name": r.choice(["root", "root", "root", ".root", "Thumbs.db", "a b"]),
+            "root_spelling": r.choice(ROOT_SPELLINGS),
             "order_seed": r.getrandbits(30)}
 
 
@@ -452,7 +466,8 @@ def describe(case):
     return {"tree": enc_tree(case["tree"]), "tree_readable": readable(case["tree"]),
             "flags": dict(zip(("include_hidden", "include_junk", "follow_symlinks"), case["flags"])),
             "globs": [glob_arg(g) for g in case["globs"]], "sort_by": case["spec_text"],
-            "root_name": case["root_name"], "order_seed": case["order_seed"], "_raw": case_json(case)}
+            "root_name": case["root_name"], "root_spelling": case.get("root_spelling", "plain"), "order_seed": case["order_seed"],
+            "_raw": case_json(case)}
 
 
 def readable(t):
@@ -468,7 +483,7 @@ def readable(t):
 
 
 def case_json(case):
-    return json.dumps({k: case[k] for k in ("tree", "flags", "globs", "specs", "spec_text", "root_name", "order_seed")})
+    return json.dumps({k: case.get(k) for k in ("tree", "flags", "globs", "specs", "spec_text", "root_name", "root_spelling", "order_seed")})
 
 
 def case_from_json(s):
@@ -486,7 +501,7 @@ def case_from_json(s):
 
     return {"tree": tree(d["tree"]), "flags": tuple(d["flags"]), "globs": [(g[0], toks(g[1])) for g in d["globs"]],
             "specs": [tuple(s) for s in d["specs"]], "spec_text": d["spec_text"], "root_name": d["root_name"],
-            "order_seed": d["order_seed"]}
+            "root_spelling": d.get("root_spelling") or "plain", "order_seed": d["order_seed"]}
 
 
 # ------------------------------------------------------------------ shrinking
@@ -544,9 +559,58 @@ def run(ctx):
     r = ctx.rng
     glob_assumption_ok = validate_globs(ctx)
     e2e(ctx, glob_assumption_ok)      # first: its failures replay on the real binary
+    undecodable_names(ctx)
     hooks_at_volume(ctx)
     malformed(ctx)
     return finish(ctx)
+
+
+def undecodable_names(ctx):
+    """A file whose name is not valid UTF-8 cannot be listed in a torrent; it must only matter when it would be listed. When
+    the documented filters leave it out (a glob that excludes it, a hidden name, a junk name is not possible here), the other
+    files are listed as if it were not there. Oracle only - the model's names are UTF-8. (Added after seeded change C06-8:
+    the path was decoded before the glob filter, so an excluded file aborted the whole run.)"""
+    bad = b"r\xe9sum\xe9"
+    layouts = [
+        ("undecodable file excluded by an including glob", {b"a.txt": 3, b"b.txt": 1, b"sub/c.txt": 2, bad + b".bak": 4}, ["--glob", "*.txt"],
+         [[b"a.txt"], [b"b.txt"], [b"sub", b"c.txt"]]),
+        ("undecodable file excluded by a negated glob", {b"a.txt": 3, b"sub/c.txt": 2, b"sub/" + bad + b".bak": 4}, ["--glob", "!*.bak"],
+         [[b"a.txt"], [b"sub", b"c.txt"]]),
+        ("undecodable hidden file", {b"a.txt": 3, b"." + bad: 4, b"sub/.h" + bad: 1, b"sub/c.txt": 2}, [],
+         [[b"a.txt"], [b"sub", b"c.txt"]]),
+        ("file in an undecodable directory excluded by a glob", {b"a.txt": 3, bad + b"/x.bak": 4, b"b.txt": 2}, ["--glob", "!*.bak"],
+         [[b"a.txt"], [b"b.txt"]]),
+        ("undecodable hidden directory", {b"a.txt": 3, b"." + bad + b"/x": 4}, [], [[b"a.txt"]]),
+    ]
+    for label, files, extra, want in layouts:
+        top = tempfile.mkdtemp(prefix="c06u-")
+        try:
+            for rel, size in files.items():
+                p = os.path.join(os.fsencode(top), b"root", rel)
+                os.makedirs(os.path.dirname(p), exist_ok=True)
+                with open(p, "wb") as f:
+                    f.write(b"x" * size)
+            rc, out, err = ctx.imdl(["torrent", "create", "--input", "root", "--output", "-"] + extra, cwd=top, timeout=60)
+            ctx.cov["evaluations"] += 1
+            ctx.count("e2e_undecodable_names")
+            ctx.distinct(("undecodable", label))
+            got = None
+            if rc == 0:
+                try:
+                    v, _ = lib.bdecode_strict(out)
+                    got = [lib.dget(f, "path") for f in lib.dget(lib.dget(v, "info"), "files")]
+                except Exception:
+                    got = None
+            if got != want:
+                ctx.violation("oracle-failure",
+                              "%s: `imdl torrent create --input root --output - %s` exited %d listing %r; the files that pass the filters are %r"
+                              % (label, " ".join(extra), rc, got, want),
+                              {"kind": "undecodable-names", "label": label, "files": {k.hex(): v for k, v in files.items()},
+                               "argv": ["imdl", "torrent", "create", "--input", "root", "--output", "-"] + extra, "rc": rc,
+                               "stderr": err.decode("utf-8", "replace")[-300:], "listed": repr(got), "expected": repr(want),
+                               "reproduce": "create the files (names are hex of the bytes, sizes in bytes) under ./root, then run argv"})
+        finally:
+            shutil.rmtree(top, ignore_errors=True)
 
 
 def corpus_cases():
